@@ -9,6 +9,11 @@ deep copy held in a SimpleNamespace.  Monitors:
   M3 fresh read   the next db_session (and one extra at the end of the case) reads attribute values == plain
   M4 reads        a read step leaves (_status_, _wbits_) unchanged; a read-only session ends with _status_ == 'loaded'
                   and the DB-API recorder saw no INSERT/UPDATE/DELETE for it; a bystander object is never touched
+  M6 loading      data2, ia2 and fa are declared lazy=True; every session gets each object through one of the loading
+                  paths Entity[pk], get(), select, select + prefetch, select of (object, lazy attributes), obj.load(),
+                  obj.load(attrs), get_by_sql, to-one navigation from a Holder row (pk-only seed object; via [], via
+                  select, via select(h.doc)), and `refetch` steps get them again inside the session (before/after
+                  commit). The values reached that way are then changed in place like any other.
   M5 aliasing     every case works on TWO entity objects a and b (12 slots: data, data2, ia, ia2, sa, fa on each).
                   Copy steps store a value READ from one slot in another slot: `b.data = a.data`, `b.ia = a.ia`,
                   `a.data2 = a.data['k']`, `b.data['x'] = a.data['y']`, `.append(a.ia)`, `.update(a.data)`, ... and
@@ -56,6 +61,9 @@ META = {
         'list.sort() calls that would leave a partially reordered list after raising are not generated',
         'equality is Python == (True == 1, 1 == 1.0); type-only differences are counted, not flagged',
         'an alias is taken from the attribute right before it is used; stale aliases are out of scope',
+        'lazy attributes are first read at session start (before any pending change exists): a lazy load in the middle '
+        'of a session is a query and would flush at a moment the deviation model does not observe; queries issued by '
+        'refetch steps happen between steps and their flush is observed from the object statuses',
         'top-level `b.data |= a.data[k]` / `b.data += a.data[k]` with a value read from another slot is not generated '
         '(open finding C28-TOPLEVEL-AUGASSIGN-NESTED-UNWRAPPED: the other slot\'s nested tracked containers get shared); '
         'a value inserted through a container Pony left unwrapped is passed as a detached copy',
@@ -79,6 +87,8 @@ BASE_ATTRS = ('data', 'data2', 'ia', 'ia2', 'sa', 'fa')
 # 'b_ia' is b.ia.  Values read from one slot are assigned to / inserted into other slots (cross-object and
 # cross-attribute copies); the reference takes an independent deep copy at that moment.
 ATTRS = BASE_ATTRS + tuple('b_' + x for x in BASE_ATTRS)
+LOAD_PATHS = ('getitem', 'getitem', 'get', 'select', 'select_prefetch', 'select_tuple', 'load', 'load_attrs', 'by_sql',
+              'nav', 'nav_select', 'nav_attr')
 
 
 def base(slot):
@@ -585,10 +595,14 @@ class Env(object):
             data = orm.Optional(orm.Json)
             ia = orm.Optional(orm.IntArray)
             sa = orm.Optional(orm.StrArray)
-            fa = orm.Optional(orm.FloatArray)
-            data2 = orm.Optional(orm.Json)
-            ia2 = orm.Optional(orm.IntArray)
-        self.Doc = Doc
+            fa = orm.Optional(orm.FloatArray, lazy=True)
+            data2 = orm.Optional(orm.Json, lazy=True)         # lazy: the value arrives through Attribute.load -> db_set
+            ia2 = orm.Optional(orm.IntArray, lazy=True)
+            holders = orm.Set('Holder')
+
+        class Holder(db.Entity):                               # to-one navigation reaches a Doc as a pk-only seed object
+            doc = orm.Required(Doc)
+        self.Doc, self.Holder = Doc, Holder
         db.bind('sqlite', self.file, create_db=True, factory=self.rec.factory())
         db.generate_mapping(create_tables=True)
         self.raw = sqlite3.connect(self.file, isolation_level=None)
@@ -605,6 +619,27 @@ class Env(object):
             for a, v in zip(BASE_ATTRS, row):
                 out[prefix + a] = json.loads(v) if isinstance(v, str) else v
         return out
+
+    def fetch(self, how, pk, hpk):
+        """One of the loading paths by which a program gets hold of a Doc object (and of its Json/array values)."""
+        Doc, Holder, orm = self.Doc, self.Holder, self.orm
+        if how == 'getitem': return Doc[pk]
+        if how == 'get': return Doc.get(id=pk)
+        if how == 'select': return Doc.select(lambda d: d.id == pk)[:][0]
+        if how == 'select_prefetch':
+            return Doc.select(lambda d: d.id == pk).prefetch(Doc.data2, Doc.ia2, Doc.fa)[:][0]
+        if how == 'select_tuple':                  # the lazy attributes are selected next to the object
+            return orm.select((d, d.data2, d.ia2, d.data) for d in Doc if d.id == pk)[:][0][0]
+        if how == 'load':
+            o = Doc[pk]; o.load(); return o
+        if how == 'load_attrs':
+            o = Doc[pk]; o.load(Doc.data2, Doc.fa); return o
+        if how == 'by_sql':
+            return Doc.get_by_sql('select * from "%s" where "%s" = $pk' % (Doc._table_, Doc.id.column))
+        if how == 'nav': return Holder[hpk].doc
+        if how == 'nav_select': return orm.select(h for h in Holder if h.id == hpk).first().doc
+        if how == 'nav_attr': return orm.select(h.doc for h in Holder if h.id == hpk).first()
+        raise AssertionError(how)
 
     def writes_since(self, mark):
         return [e['sql'] for e in self.rec.statements(since=mark)
@@ -820,8 +855,9 @@ class CaseRun(object):
         if r < 0.54: return gen_mut(rng, plain)
         if r < 0.64: return gen_copy(rng, plain)
         if r < 0.75: return gen_read(rng, plain)
-        if r < 0.87: return {'k': 'flush'}
-        if r < 0.94: return {'k': 'commit'}
+        if r < 0.84: return {'k': 'flush'}
+        if r < 0.90: return {'k': 'commit'}
+        if r < 0.95: return {'k': 'refetch', 'how': [rng.choice(LOAD_PATHS), rng.choice(LOAD_PATHS)]}
         attr = rng.choice(ATTRS)
         val = gen_container(rng, rng.choice((1, 2, 3))) if is_json(attr) else gen_array(rng, attr)
         return {'k': 'assign', 'attr': attr, 'value': val}
@@ -859,10 +895,18 @@ class CaseRun(object):
             with orm.db_session:
                 by = Doc(**copy.deepcopy(bystander_init))
                 ob = Doc(**kwargs('b_'))
-                if start == 'loaded': oa = Doc(**kwargs(''))
+                hb = env.Holder(doc=ob)
+                if start == 'loaded':
+                    oa = Doc(**kwargs(''))
+                    ha = env.Holder(doc=oa)
                 orm.flush()
-                by_pk, pk_b = by.id, ob.id
+                by_pk, pk_b, hpk_b = by.id, ob.id, hb.id
                 pk_a = oa.id if start == 'loaded' else None
+                hpk_a = ha.id if start == 'loaded' else None
+            if self.script is not None: loads = self.script.get('loads') or []
+            else: loads = [[self.rng.choice(LOAD_PATHS), self.rng.choice(LOAD_PATHS)] for _ in plan]
+            loads = list(loads) + [['getitem', 'getitem']] * (len(plan) - len(loads))
+            self.case['loads'] = loads
             for si in range(len(plan)):
                 steps_out = []
                 self.case['sessions'].append(steps_out)
@@ -872,14 +916,21 @@ class CaseRun(object):
                 with orm.db_session:
                     by = Doc[by_pk]
                     by.data['bystander'][1]['x']          # loaded and read
-                    ob = Doc[pk_b]
+                    ob = env.fetch(loads[si][1], pk_b, hpk_b)
+                    self.count('load_path.' + loads[si][1])
+                    self.fp.append(('L', loads[si][0] if not creating else 'create', loads[si][1]))
                     if creating:
+                        # lazy attributes of b are loaded now: a lazy load is a query, and a query issued while a is
+                        # pending would flush a at a moment the deviation model cannot see
+                        for x in BASE_ATTRS: getattr(ob, x)
                         oa = Doc(**kwargs(''))
+                        ha = env.Holder(doc=oa)
                         self.pending_insert = True
                         readonly = False
                         obj = Pair(oa, ob)
                     else:
-                        oa = Doc[pk_a]
+                        oa = env.fetch(loads[si][0], pk_a, hpk_a)
+                        self.count('load_path.' + loads[si][0])
                         obj = Pair(oa, ob)
                         fresh_check(obj, si)
                     # follow the key order the database gives back (popitem/iteration order is order dependent)
@@ -918,6 +969,18 @@ class CaseRun(object):
                             self.n_mut_ok += 1
                             self.count('outcome.assign_ok')
                             self.fp.append(('a', st['attr'], copy_class(st), len((st.get('ref') or [0, []])[1])))
+                        elif k == 'refetch':
+                            # get the objects again inside the session through another loading path (a query flushes
+                            # pending changes first: observed from the statuses, not assumed)
+                            if pk_a is None and oa._status_ != 'created': pk_a, hpk_a = oa.id, ha.id
+                            for which, (o, pk, hpk) in (('a', (oa, pk_a, hpk_a)), ('b', (ob, pk_b, hpk_b))):
+                                if pk is None or (which == 'a' and st['how'][0] is None): continue
+                                o2 = env.fetch(st['how'][0 if which == 'a' else 1], pk, hpk)
+                                if o2 is not o: raise Mismatch('refetch_identity', {'step': st, 'which': which})
+                            self.count('monitor.refetches')
+                            if oa._status_ not in ('created', 'modified') and ob._status_ not in ('created', 'modified'):
+                                self.model_flush(plain)
+                            self.fp.append(('F', tuple(st['how'])))
                         elif k == 'flush':
                             readonly = False
                             orm.flush()
@@ -928,7 +991,7 @@ class CaseRun(object):
                             orm.commit()
                             self.model_flush(plain)
                             self.fp.append('c')
-                            if pk_a is None: pk_a = oa.id
+                            if pk_a is None: pk_a, hpk_a = oa.id, ha.id
                             if not self.commit_point((pk_a, pk_b), plain, 'commit() in session %d step %d' % (si, i)):
                                 raise _Stop()
                         self.check_in_session(obj, plain, 'session %d step %d' % (si, i))
@@ -941,7 +1004,7 @@ class CaseRun(object):
                 # session exit committed
                 self.model_flush(plain)
                 self.fp.append('x')
-                if pk_a is None: pk_a = oa.id
+                if pk_a is None: pk_a, hpk_a = oa.id, ha.id
                 w = env.writes_since(mark)
                 if readonly:
                     self.count('monitor.readonly_sessions')
@@ -1033,6 +1096,7 @@ def describe(st):
     """Readable Python-like rendering of one step (for witnesses and reports); a and b are the two entity objects."""
     k = st['k']
     if k in ('flush', 'commit'): return k + '()'
+    if k == 'refetch': return 'refetch a via %s, b via %s' % tuple(st['how'])
     if k == 'assign':
         if st.get('ref') is not None: return '%s = %s' % (slot_src(st['attr']), slot_src(*st['ref']))
         return '%s = %r' % (slot_src(st['attr']), st['value'])
@@ -1224,6 +1288,20 @@ def matrix_cases(rng):
                 for start in ('loaded', 'created'):
                     if start == 'created' and sep == 'session': continue
                     yield {'init': tree_copy(base_init), 'start': start, 'sessions': sessions}
+    # loading paths x lazy/eager slots: the value reached through every way of getting the object, then changed in place
+    lp_init = {'data': {'e': [1]}, 'data2': {'lz': [1, {'n': 0}]}, 'ia': [1], 'ia2': [1, 2], 'sa': ['s'], 'fa': [0.5],
+               'b_data': {'e': [2]}, 'b_data2': [[0], {'n': [1]}], 'b_ia': [3], 'b_ia2': [4, 5], 'b_sa': ['t'], 'b_fa': [1.5, 2.5]}
+    lp_muts = {'data': M('data', ['e'], 'append', 9), 'data2': M('data2', ['lz', 1], 'setitem', 'n', 9), 'ia': M('ia', [], 'append', 9),
+               'ia2': M('ia2', [], 'insert', 0, 9), 'sa': M('sa', [], 'append', 'z'), 'fa': M('fa', [], 'append', 9.5),
+               'b_data2': M('b_data2', [1, 'n'], 'append', 9), 'b_ia2': M('b_ia2', [], 'pop'), 'b_fa': M('b_fa', [], 'reverse'),
+               'b_data': M('b_data', ['e'], 'clear')}
+    for how in sorted(set(LOAD_PATHS)):
+        for slot, m in sorted(lp_muts.items()):
+            yield {'init': tree_copy(lp_init), 'start': 'loaded', 'sessions': [[tree_copy(m)]], 'loads': [[how, how]]}
+            # ... and after getting the object a second time in the same session (before and after a commit)
+            yield {'init': tree_copy(lp_init), 'start': 'loaded', 'loads': [['getitem', 'getitem']],
+                   'sessions': [[{'k': 'refetch', 'how': [how, how]}, tree_copy(m), {'k': 'commit'},
+                                 {'k': 'refetch', 'how': [how, how]}, tree_copy(m)]]}
     # dict-side inserting ops followed by nested mutation
     for ins in ('setitem', 'update', 'update_pairs', 'update_pairs_iter', 'update_kw', 'setdefault', 'ior', 'ior_pairs'):
         for sep in ('flush', 'commit'):
@@ -1269,12 +1347,12 @@ def run(ctx):
             n += 1
             ctx.count('matrix_cases')
         # 2. random multi-session histories
-        total = 8000 if ctx.tier == 'quick' else 15000
+        total = 6500 if ctx.tier == 'quick' else 12000
         for i in range(total):
             run_one(env, ctx, rng=rng, sample=(i % 401 == 0))
             ctx.count('random_cases')
         # 3. read-only histories (M4 is the deciding monitor for the second sentence of the property)
-        total_ro = 1500 if ctx.tier == 'quick' else 2500
+        total_ro = 1200 if ctx.tier == 'quick' else 2000
         for i in range(total_ro):
             plan = [{'readonly': True, 'n': rng.choice((2, 4, 8, 12))} for _ in range(rng.choice((1, 2)))]
             run_one(env, ctx, rng=rng, plan=plan, start='loaded', sample=(i % 251 == 0))
@@ -1299,6 +1377,8 @@ def run(ctx):
     ctx.floor('xcopy.whole_value', 600 * k)
     ctx.floor('xcopy.nested_insert', 600 * k)
     ctx.floor('mut_on_second_object', 3000 * k)
+    for how in sorted(set(LOAD_PATHS)): ctx.floor('load_path.' + how, 500 * k)
+    ctx.floor('monitor.refetches', 500 * k)
 
 
 def replay(ctx, witness):
